@@ -111,6 +111,19 @@ race pass, `time.Time` inputs in named zones whose clock changes at local midnig
 second of every month and year — one undecidable (a new moon 81 s from local midnight) and one judged out of scope
 (needs a name table shorter than the built-in one, under which the unchanged library cannot name its own records).
 
+### 10.1b Behaviour-preserving changes (`/verif/benign/`, `benign_all.sh`)
+
+Round 11 turned the exercise around: twenty sub-agents each wrote a realistic, non-trivial change that *preserves*
+its property — correctly keyed and locked memo tables and LRU caches for year tables and almanac lookups, closed-form
+day counts replacing loops (negative years and the 1582 gap included), integer comparisons replacing formatted-string
+comparisons (with the string path kept where the two orders differ), binary searches over the sorted tables,
+slice-backed month tables behind freshly built lists, helper extraction, `sync.Once` tables, new correct exported
+helpers — and proved it with a record/compare differential test over a broad sweep against the unchanged library.
+Each patch was run (through the build overlay) against the quick check of its property and against C09: **none of the
+twenty raised a VIOLATION line**; the existing tests pass with all of them. They are kept as a regression set for
+"no alarm on code where the property holds" next to the seeded faults. (Two of them deliberately change what a caller
+sees after modifying a container returned by the library, or on zero-value objects; neither is observed by any check.)
+
 ### 10.2 Hand-written overlay mutants (`selftest.py`, results in `selftest.json`)
 
 %d mutants (1–3 per property, listed with their intent in `selftest.py`) are applied through the build
